@@ -1,5 +1,6 @@
 import GqlVerif.Driver.Decode
 import GqlVerif.Driver.Loop
+import GqlVerif.Model.Valid
 open GqlVerif
 
 def errSexp : Err → Sexp
@@ -54,6 +55,16 @@ def handle (req : Sexp) : Sexp :=
     match Decode.schemaSrc src, Decode.qdoc doc with
     | some s, some d => outcomeSexp (fun (q : Query) => Sexp.mkNat q.operations.length) (do Resolve.resolve (← s) d)
     | _, _ => bad "resolve"
+  | .list [.atom "c06", src, doc] =>
+    -- resolve outcome kind + the specification's verdicts (strict / without the no-selection rule)
+    match Decode.schemaSrc src, Decode.qdoc doc with
+    | some (.ok s), some d =>
+      let kind := match Resolve.resolve s d with
+        | .ok _ => "ok" | .error (.error _) => "err" | .error (.panic _) => "panic"
+        | .error (.diverge _) => "diverge" | .error (.unmodelled _) => "unmodelled"
+      .list [.atom "c06", .atom kind, Sexp.mkBool (Valid.validDoc s true d), Sexp.mkBool (Valid.validDoc s false d)]
+    | some (.error e), some _ => .list [.atom "schema-failed", errSexp e]
+    | _, _ => bad "c06"
   | .list [.atom "gen", src, doc, .str text, opts, cases] =>
     match Decode.schemaSrc src, Decode.qdoc doc, Decode.options opts, Decode.caseFns cases with
     | some s, some d, some o, some cs =>
